@@ -17,7 +17,7 @@ from harness.core import gq, gbool, gstr, glist, gopt
 getcontext().prec = 60
 
 HEADER = """From FrameModel Require Import Num.QcTac Geometry.Rect Cases.Cmp Yaml.Tree Yaml.NetlistRead
-  Yaml.NetlistWrite Cases.CmpC0405.
+  Yaml.NetlistWrite Yaml.NetlistReadForms Cases.CmpC0405.
 Open Scope Qc_scope."""
 
 ASSUMPTIONS = [
@@ -28,6 +28,19 @@ ASSUMPTIONS = [
     "approximation (relative error < 2^-60, exact on squares)",
     "decimal documents (multiples of 0.1) are checked by the direct oracle only",
     "a mapping with a repeated key is not a Python dict (ruamel raises DuplicateKeyError): the model rejects such association lists",
+    "strings are handed to the model as their UTF-8 bytes (any str, control characters and non-ASCII included); a mapping key "
+    "that is no str (YAML null / true / 12 / 1e3) as the byte 255 followed by its repr - no str encodes to that, so the model "
+    "sees what the code can see of it: no identifier, no keyword, different from every other key; None is the tree YNull",
+    "input forms: the document written by the real write_yaml, a YAML text spelled by the harness, or the name of a file holding "
+    "either is given to Netlist(...) only when the real loader (YAML(typ='safe')) reads exactly the document back from it "
+    "(types, key order, sign of zero); otherwise the tree itself is given. The model is run on that document",
+    "histories: each load (also those that precede the observed one) starts from an undefined Rectangle epsilon; the model is a "
+    "function of the current document, so a stale cache or shared object shows as a disagreement",
+    "which assertion rejects a document is not compared (only accepted / rejected); the agreement of the assertion class with "
+    "the model's is recorded as a statistic (rejections_same_assertion_as_model)",
+    "geometry tolerances are relative to the smallest dimension of the design: boundary-valid documents keep every area / size "
+    "at the scale of the coordinates (>= 1/16 for coordinates below 2^8), where x + epsilon is not rounded back to x; the one "
+    "document beyond that scale is corpus/C05/flip-stog-small-epsilon.json (finding C05/well-formed-rejected-small-scale, repaired)",
 ]
 
 CLASSES = ["unknown-module", "nonpositive-weight", "nonpositive-area", "soft-without-area", "hard-with-area",
@@ -37,6 +50,7 @@ CLASSES = ["unknown-module", "nonpositive-weight", "nonpositive-area", "soft-wit
 # assertion message -> admissible model reasons
 MSG2REASON = [
     (r"root node is not a dictionary", ["R_root_not_map"]),
+    (r"The input must be a YAML tree", ["R_source"]),
     (r"^Unknown key", ["R_root_key"]),
     (r"node for modules is not a dictionary", ["R_modules_not_map"]),
     (r"Invalid module name|Invalid name for module|Incorrect module name", ["R_module_name"]),
@@ -63,7 +77,9 @@ MSG2REASON = [
     (r"Incorrect specification of rectangles", ["R_rects_spec"]),
     (r"Incorrect format for rectangle", ["R_rect_format"]),
     (r"Incorrect value for rectangle", ["R_rect_value"]),
-    (r"^$", ["R_rect_region", "R_stog_empty"]),
+    # bare asserts: region of a rectangle, create_stog on no rectangle, `assert isinstance(key, str)` of parse_yaml_module
+    # (and `assert isinstance(stream, TextIO)` of read_yaml when Netlist(None) is called)
+    (r"^$", ["R_rect_region", "R_stog_empty", "R_module_attr", "R_source"]),
     (r"Hard rectangles cannot be assigned", ["R_rect_hard_region"]),
     (r"Incorrect rectangle width", ["R_rect_width"]),
     (r"Incorrect rectangle height", ["R_rect_height"]),
@@ -94,12 +110,28 @@ def is_num(x):
     return isinstance(x, (int, F, float)) and not isinstance(x, bool)
 
 
+NSKEY = "\x00!"      # a mapping key that is not a str is held in a document as NSKEY + repr(key)
+
+
+def nskey(k) -> str:
+    """the document form of a mapping key that is not a string (None, True, 12, 1000.0: YAML `null:`, `true:` ...)"""
+    assert k is None or isinstance(k, (bool, int, float))
+    return NSKEY + repr(k)
+
+
+def unkey(k):
+    if isinstance(k, str) and k.startswith(NSKEY):
+        import ast
+        return ast.literal_eval(k[len(NSKEY):])
+    return k
+
+
 def to_py(d):
-    """The Python object FRAME / ruamel sees: Fraction -> float."""
+    """The Python object FRAME / ruamel sees: Fraction -> float, NSKEY keys -> the key objects."""
     if isinstance(d, F):
         return float(d)
     if isinstance(d, dict):
-        return {k: to_py(v) for k, v in d.items()}
+        return {unkey(k): to_py(v) for k, v in d.items()}
     if isinstance(d, list):
         return [to_py(v) for v in d]
     return d
@@ -107,12 +139,14 @@ def to_py(d):
 
 def from_py(d):
     """A loaded YAML tree as a document (floats become exact Fractions)."""
-    if isinstance(d, bool) or isinstance(d, (int, str)):
+    if d is None or isinstance(d, bool) or isinstance(d, (int, str)):
         return d
     if isinstance(d, float):
+        if d != d or d in (math.inf, -math.inf):
+            return d
         return F(*d.as_integer_ratio())
     if isinstance(d, dict):
-        return {k: from_py(v) for k, v in d.items()}
+        return {(k if isinstance(k, str) else nskey(k)): from_py(v) for k, v in d.items()}
     if isinstance(d, (list, tuple)):
         return [from_py(v) for v in d]
     raise TypeError(type(d))
@@ -123,20 +157,80 @@ def seen(d):
     return from_py(to_py(d))
 
 
+HAS_NULL = True      # the tree model has a constructor for None (Yaml/Tree.v: YNull)
+
+
+def encodable(x: str) -> bool:
+    try:
+        x.encode("utf-8")
+        return True
+    except UnicodeEncodeError:
+        return False
+
+
+def key_ok(k) -> bool:
+    """a mapping key the model can represent: any str (NSKEY keys included, see gkey)"""
+    return isinstance(k, str) and encodable(k)
+
+
 def exact_doc(d) -> bool:
-    """Every float of the document is exactly representable (dyadic)."""
+    """The model can be run on the document: every float is a finite binary64 given exactly (dyadic),
+    every string has a UTF-8 encoding, None only if the tree model has it."""
     if isinstance(d, F):
         return F(*float(d).as_integer_ratio()) == d
+    if isinstance(d, bool) or isinstance(d, int):
+        return True
+    if isinstance(d, float):
+        return d == d and abs(d) != math.inf
     if isinstance(d, dict):
-        return all(isinstance(k, str) and k.isascii() and exact_doc(v) for k, v in d.items())
+        return all(key_ok(k) and exact_doc(v) for k, v in d.items())
     if isinstance(d, list):
         return all(exact_doc(v) for v in d)
     if isinstance(d, str):
-        return d.isascii() and all(32 <= ord(c) < 127 for c in d)
-    return isinstance(d, (bool, int))
+        return encodable(d)
+    if d is None:
+        return HAS_NULL
+    return False
+
+
+def gbytes(b: bytes) -> str:
+    """A Coq string holding exactly these bytes (printable ASCII as a literal, the rest as "ddd"%char)."""
+    if all(32 <= c < 127 for c in b):
+        return core.gstr(b.decode("ascii"))
+    expr = 'EmptyString'
+    i = len(b)
+    while i > 0:
+        j = i
+        while j > 0 and 32 <= b[j - 1] < 127:
+            j -= 1
+        if j < i:
+            lit = b[j:i].decode("ascii").replace('"', '""')
+            expr = f'(String.append "{lit}"%string {expr})'
+            i = j
+        else:
+            expr = f'(String "{b[i - 1]:03d}"%char {expr})'
+            i -= 1
+    return expr
+
+
+def gs(x: str) -> str:
+    """A Python str as the Coq string of its UTF-8 bytes (injective; ASCII identifiers are themselves)."""
+    return gbytes(x.encode("utf-8"))
+
+
+def gkey(k: str) -> str:
+    """A mapping key. A key that is not a str (YAML `null:`, `true:`, `1e3:` ...; NSKEY + repr in a document) is
+    printed as the byte 255 followed by its repr: no str has such an encoding, so the model sees a key that is no
+    identifier, no keyword and equal to no other key - which is all the code can find out about it
+    (valid_identifier / `key in [...]` / `isinstance(key, str)` all fail)."""
+    if k.startswith(NSKEY):
+        return gbytes(b"\xff" + k[len(NSKEY):].encode("ascii"))
+    return gs(k)
 
 
 def gtree(d) -> str:
+    if d is None:
+        return "YNull"
     if isinstance(d, bool):
         return f"(YBool {gbool(d)})"
     if isinstance(d, int):
@@ -146,11 +240,11 @@ def gtree(d) -> str:
     if isinstance(d, float):
         return f"(YNum {gq(d)} false)"
     if isinstance(d, str):
-        return f"(YStr {gstr(d)})"
+        return f"(YStr {gs(d)})"
     if isinstance(d, list):
         return f"(YList {glist([gtree(x) for x in d])})"
     if isinstance(d, dict):
-        return "(YMap " + glist([f"({gstr(k)}, {gtree(v)})" for k, v in d.items()]) + ")"
+        return "(YMap " + glist([f"({gkey(k)}, {gtree(v)})" for k, v in d.items()]) + ")"
     raise TypeError(type(d))
 
 
@@ -224,19 +318,91 @@ def load(src, eps=None):
     return n, {"verdict": "ok"}
 
 
-def run_impl(case):
-    """text = write_yaml(document) (real ruamel dump); n1 = Netlist(text); text1 = n1.write_yaml();
-    n2 = Netlist(text1); text2 = n2.write_yaml()."""
+def same_tree(a, b) -> bool:
+    """equality of loaded trees including the int / float / bool / str types and the key order"""
+    if type(a) is not type(b):
+        return False
+    if isinstance(a, dict):
+        return list(a) == list(b) and all(type(x) is type(y) for x, y in zip(a, b)) and \
+            all(same_tree(a[k], b[k]) for k in a)
+    if isinstance(a, list):
+        return len(a) == len(b) and all(same_tree(x, y) for x, y in zip(a, b))
+    if isinstance(a, float):
+        return a == b and math.copysign(1, a) == math.copysign(1, b)
+    return a == b
+
+
+def text_of(doc, spelled=None):
+    """The YAML text handed to Netlist(...): the hand-spelled text of the case if it has one, else the document
+    written by the real write_yaml - provided the real loader reads exactly the document back from it (ruamel does
+    not round-trip every string, e.g. U+0085) and read_yaml would take it for a text (': ').  None = give the tree."""
     from frame.utils.utils import write_yaml
+    from ruamel.yaml import YAML
+    for how in ("spelled", "ruamel"):
+        try:
+            text = spelled if how == "spelled" else write_yaml(doc)
+            if isinstance(text, str) and ": " in text and same_tree(YAML(typ="safe").load(text), doc):
+                return text, how
+        except Exception:
+            pass
+    return None, "tree"
+
+
+def run_impl(case):
+    """text = write_yaml(document) (real ruamel dump) or the case's own spelling; n1 = Netlist(text);
+    text1 = n1.write_yaml(); n2 = Netlist(text1); text2 = n2.write_yaml().
+    case["via"]: "tree" = Netlist(document), "file" = Netlist(name of a file holding the text),
+    "stream" = Netlist(open text stream holding the text).
+    case["history"]: documents loaded (and written) in the same process before, each from an undefined epsilon;
+    case["twice"]: the very same source object is loaded twice, the second load is observed."""
+    import os
+    import tempfile
     from ruamel.yaml import YAML
     doc = to_py(case["doc"])
     eps = case.get("eps")
+    for h in case.get("history") or []:
+        hd = to_py(h["doc"])
+        ht = None if h.get("via") == "tree" else text_of(hd)[0]
+        nh, _ = load(hd if ht is None else ht, eps)
+        if nh is not None and h.get("write", True):
+            nh.write_yaml()
+    text, how = (None, "tree") if case.get("via") == "tree" else text_of(doc, case.get("text"))
+    src = doc if text is None else text
+    tmp = None
+    if case.get("via") == "file" and text is not None:
+        tmp = tempfile.mkdtemp(prefix="nl")
+        src = os.path.join(tmp, "netlist.yaml")
+        if ": " in src:
+            src = text
+        else:
+            with open(src, "w", encoding="utf-8", newline="") as f:
+                f.write(text)
+            try:        # read back the way read_yaml does: the file must hold the document
+                with open(src) as f:
+                    same = same_tree(YAML(typ="safe").load(f.read()), doc)
+            except Exception:
+                same = False
+            if same:
+                how = how + "-file"
+            else:
+                src = text
+    if case.get("via") == "stream" and text is not None:
+        import io
+        src = io.StringIO(text)
+        how = how + "-stream"
     try:
-        text = write_yaml(doc)
-        src = text if (isinstance(text, str) and ": " in text) else doc   # read_yaml takes a text without ': ' for a file name
-    except Exception:
-        text, src = None, doc
-    obs = {"text": text, "via": "text" if src is text else "tree"}
+        return _observe(case, src, text, how, eps)
+    finally:
+        if tmp is not None:
+            import shutil
+            shutil.rmtree(tmp, ignore_errors=True)
+
+
+def _observe(case, src, text, how, eps):
+    from ruamel.yaml import YAML
+    if case.get("twice") and not how.endswith("-stream"):      # (a stream can be read once)
+        load(src, eps)
+    obs = {"text": text, "via": how}
     n1, v = load(src, eps)
     obs.update(v)
     if n1 is None:
@@ -244,6 +410,8 @@ def run_impl(case):
     obs["n1"] = netlist_obs(n1)
     text1 = n1.write_yaml()
     obs["text1"] = text1
+    obs["text1_again"] = n1.write_yaml()      # the design written a second time ...
+    obs["n1_after"] = netlist_obs(n1)         # ... and as it is after having been written
     try:
         obs["tree1"] = from_py(YAML(typ="safe").load(text1))
     except Exception as e:
@@ -272,7 +440,7 @@ def gscalar(x) -> str:
 
 def gmrect(r) -> str:
     return (f"(mkMRect {gscalar(r['x'])} {gscalar(r['y'])} {gscalar(r['w'])} {gscalar(r['h'])} "
-            f"{gstr(r['region'])} {gbool(r['fixed'])} {gbool(r['hard'])} {r['loc']})")
+            f"{gs(r['region'])} {gbool(r['fixed'])} {gbool(r['hard'])} {r['loc']})")
 
 
 def gqpair(p) -> str:
@@ -280,10 +448,10 @@ def gqpair(p) -> str:
 
 
 def gmodule(m) -> str:
-    return (f"(mkModule {gstr(m['name'])} {gopt(None if m['center'] is None else gqpair(m['center']))} "
+    return (f"(mkModule {gs(m['name'])} {gopt(None if m['center'] is None else gqpair(m['center']))} "
             f"{gopt(None if m['ar'] is None else gqpair(m['ar']))} {gbool(m['terminal'])} {gbool(m['hard'])} "
             f"{gbool(m['fixed'])} {gbool(m['flip'])} "
-            f"{glist([f'({gstr(k)}, {gq(val(v))})' for k, v in m['area_regions']])} "
+            f"{glist([f'({gs(k)}, {gq(val(v))})' for k, v in m['area_regions']])} "
             f"{glist([gmrect(r) for r in m['rects']])})")
 
 
@@ -318,10 +486,25 @@ def gobserved(obs) -> str:
         d = sqdists(n1, e)
         sq.append(gopt(None if d is None else glist([gq(x) for x in d])))
     return ("(OLoaded " + glist([gmodule(m) for m in n1["modules"]]) + " "
-            + glist([f"(mkNet {glist([gstr(b) for b in e['members']])} {gq(val(e['weight']))})" for e in n1["edges"]]) + " "
+            + glist([f"(mkNet {glist([gs(b) for b in e['members']])} {gq(val(e['weight']))})" for e in n1["edges"]]) + " "
             + glist([gmrect(r) for r in n1["rects"]]) + " "
             + gopt(None if n1["eps"] is None else gqpair(n1["eps"])) + " "
             + gtree(obs["tree1"]) + " " + glist(sq) + ")")
+
+
+def reason_stat(ctx, out, pairs):
+    """Statistic (no verdict depends on it): on how many rejected documents the assertion that fired is the one the
+    model fires. pairs = [(case, obs)]."""
+    exprs = []
+    for case, obs in pairs:
+        if obs.get("verdict") == "reject" and case.get("exact", True) and exact_doc(case["doc"]) \
+                and isinstance(case["doc"], (dict, list)) and reasons_of(obs.get("msg", "")):
+            eps = case.get("eps")
+            geps = gopt(None if eps is None else f"({gq(eps[0])}, {gq(eps[1])})")
+            exprs.append(f"reason_agrees {geps} {gtree(case['doc'])} {gobserved(obs)}")
+    res = core.coq_eval_bools(ctx, HEADER, exprs, shard=400, tag="reasons") if exprs else []
+    out.extra["rejections_with_known_message"] = len(exprs)
+    out.extra["rejections_same_assertion_as_model"] = sum(1 for r in res if r is True)
 
 
 def to_coq(case, obs):
@@ -329,6 +512,8 @@ def to_coq(case, obs):
         return "true"      # decimal / non-ASCII documents: direct oracle only
     eps = case.get("eps")
     geps = gopt(None if eps is None else f"({gq(eps[0])}, {gq(eps[1])})")
+    if not isinstance(case["doc"], (dict, list)) and obs.get("via") == "tree":
+        return f"check_other {geps} {gobserved(obs)}"      # Netlist(None), Netlist(3): no tree, no text
     return f"check_case {geps} {gtree(case['doc'])} {gobserved(obs)}"
 
 
@@ -564,32 +749,53 @@ def boxes_overlap_area(a, b) -> F:
     return w * h if (w > 0 and h > 0) else F(0)
 
 
+IDENT = re.compile(r"[A-Za-z_][A-Za-z0-9_]*")
+
+
+def is_ident(x) -> bool:
+    """the names of the format: an ASCII letter or '_' followed by ASCII letters, digits, '_' - the whole string"""
+    return isinstance(x, str) and IDENT.fullmatch(x) is not None
+
+
+def numlike(x) -> bool:
+    """a Python number as the format's readers see it (bool is an int: False is 0, True is 1)"""
+    return isinstance(x, (bool, int, F, float)) and x == x
+
+
+def doc_hard_true(info) -> bool:
+    """the module is stated to be hard: hard / fixed / terminal is literally true"""
+    return info.get("hard") is True or info.get("fixed") is True or info.get("terminal") is True
+
+
 def has_defect(doc, cls) -> bool:
     """Does the document (still) contain a defect of the class? Purely syntactic."""
     mods, nets = mods_of(doc), nets_of(doc)
+    infos = [i for i in mods.values() if isinstance(i, dict)]
     if cls == "unknown-module":
         return any(isinstance(b, str) and b not in mods for n in nets for b in net_members(n))
     if cls == "nonpositive-weight":
-        return any(isinstance(n, list) and n and is_num(n[-1]) and val(n[-1]) <= 0 for n in nets)
+        return any(isinstance(n, list) and n and numlike(n[-1]) and val(n[-1]) <= 0 for n in nets)
     if cls == "nonpositive-area":
-        for info in mods.values():
-            a = info.get("area") if isinstance(info, dict) else None
-            if is_num(a) and val(a) <= 0:
+        for info in infos:
+            a = info.get("area")
+            if numlike(a) and val(a) <= 0:
                 return True
-            if isinstance(a, dict) and any(is_num(v) and val(v) <= 0 for v in a.values()):
+            if isinstance(a, dict) and any(numlike(v) and val(v) <= 0 for v in a.values()):
                 return True
         return False
     if cls == "soft-without-area":
-        return any(isinstance(i, dict) and not doc_is_hard(i) and "area" not in i and "hard" not in i
-                   and "fixed" not in i for i in mods.values())
+        # no area attribute, or an area mapping without any region (total area zero)
+        return any(not doc_hard_true(i) and "terminal" not in i and ("area" not in i or i["area"] == {})
+                   and all(i.get(k, False) is False for k in ("hard", "fixed")) for i in infos)
     if cls == "hard-with-area":
-        return any(isinstance(i, dict) and doc_is_hard(i) and "area" in i for i in mods.values())
+        # any area at all, whatever its value - except the empty mapping, which states no area
+        return any(doc_hard_true(i) and "area" in i and i["area"] != {} for i in infos)
     if cls == "hard-without-rectangles":
-        return any(isinstance(i, dict) and (i.get("hard") is True or i.get("fixed") is True) and "terminal" not in i
-                   and "rectangles" not in i for i in mods.values())
+        return any((i.get("hard") is True or i.get("fixed") is True) and "terminal" not in i
+                   and ("rectangles" not in i or i["rectangles"] == []) for i in infos)
     if cls == "hard-overlap":
-        for i in mods.values():
-            if isinstance(i, dict) and (i.get("hard") is True or i.get("fixed") is True) and "terminal" not in i:
+        for i in infos:
+            if (i.get("hard") is True or i.get("fixed") is True) and "terminal" not in i:
                 rs = [r for r in rects_of(i) if isinstance(r, list) and len(r) >= 4 and all(is_num(v) for v in r[:4])]
                 for a in range(len(rs)):
                     for b in range(a + 1, len(rs)):
@@ -600,16 +806,25 @@ def has_defect(doc, cls) -> bool:
                             return True
         return False
     if cls == "unknown-attribute":
-        known = {"area", "center", "aspect_ratio", "terminal", "hard", "fixed", "flip", "rectangles"}
-        return any(isinstance(i, dict) and any(k not in known for k in i) for i in mods.values())
+        known = ["area", "center", "aspect_ratio", "terminal", "hard", "fixed", "flip", "rectangles"]
+        return any(not (isinstance(k, str) and k in known) for i in infos for k in i)
     if cls == "invalid-name":
-        return any(not (isinstance(k, str) and re.fullmatch(r"[A-Za-z_][A-Za-z0-9_]*", k)) for k in mods)
+        # module names; region names of an area mapping; region names of rectangles
+        if any(not is_ident(k) for k in mods):
+            return True
+        for i in infos:
+            if isinstance(i.get("area"), dict) and any(not is_ident(k) for k in i["area"]):
+                return True
+            if any(isinstance(r, list) and len(r) == 5 and isinstance(r[4], str) and not is_ident(r[4])
+                   for r in rects_of(i)):
+                return True
+        return False
     if cls == "one-pin-net":
         return any(isinstance(n, list) and len(net_members(n)) == 1 for n in nets)
     if cls == "nonpositive-rect-size":
-        return any(isinstance(r, list) and len(r) >= 4 and all(is_num(v) for v in r[2:4])
+        return any(isinstance(r, list) and len(r) in (4, 5) and all(numlike(v) for v in r[:4])
                    and (val(r[2]) <= 0 or val(r[3]) <= 0)
-                   for i in mods.values() if isinstance(i, dict) for r in rects_of(i))
+                   for i in infos for r in rects_of(i))
     raise KeyError(cls)
 
 
